@@ -1,4 +1,5 @@
 """C16 — strict mode rejects every documented extension anywhere; default mode accepts it."""
+import os
 import random
 
 from vflib import core, build
@@ -68,7 +69,8 @@ def variants(rng, text, toks, full):
                 yield "trailing-comma-" + ("array" if t.kind == "]" else "object"), ctx, text[:t.start] + b"," + text[t.start:], True, None
     # 8. trailing non-whitespace after the top-level value
     vend = toks[-1].end
-    for junk in (b"x", b"]", b"}", b",", b"1", b'"', b"null", b"\x01", b":"):
+    anybyte = bytes([rng.choice([b for b in range(1, 256) if b not in (9, 10, 13, 32, 0x2F)])])  # '/' would start a (malformed) comment: two extensions at once
+    for junk in (b"x", b"]", b"}", b",", b"1", b'"', b"null", b"\x01", b":", b"\x0b", b"\x0c", anybyte):
         for ws in (b"", b" ", b"\n\t "):
             if full or rng.random() < 0.4:
                 last = toks[-1]
@@ -106,15 +108,20 @@ def shard_fn(shard, nshards, seed, tier, exe, ndocs):
             cmds = ["P %d 0 1 x%s" % (1 | u8, h), "P %d 0 1 x%s" % (u8, h)]
             if kind == "trailing-garbage":
                 cmds.append("P %d 0 1 x%s" % (3 | u8, h))
+            # (not for forms that FOLLOW the complete value: the call that completes the value rightly reports success before the rest is fed)
+            chunked = rng.random() < 0.5 and kind != "trailing-garbage" and ctx != "after-last"
+            if chunked:
+                # the same strict parse fed in pieces of 1..7 bytes: where the calls are cut must not let an extension through
+                cmds.append("LPC %d 0 %d x%s" % (1 | u8, rng.choice([1, 1, 2, 3, 5, 7]), h))
             cases.append((cid, cmds))
-            meta[cid] = (kind, ctx, vt, neutral, extra, expd, text)
+            meta[cid] = (kind, ctx, vt, neutral, extra, expd, text, chunked)
     results, crashes = core.run_script(exe, cases, tag="c16", env=core.ambient_env(sh, shard))
     cmdmap = dict(cases)
     for cr in crashes:
         k, frame = cr.summary()
         sh.violation("C16/crash/%s/%s" % (k, frame), "crash on variant %r" % (meta[cr.cid][2][:80],), {"driver": "jcdrv", "script": cmdmap[cr.cid], "stderr": cr.stderr[-2000:]})
     for cid, lines in results.items():
-        kind, ctx, vt, neutral, extra, expd, text = meta[cid]
+        kind, ctx, vt, neutral, extra, expd, text, chunked = meta[cid]
         rep = {"driver": "jcdrv", "variant": "asan", "script": cmdmap[cid], "original": text.decode("utf-8", "replace"), "variant_text": vt.decode("utf-8", "replace"), "kind": kind}
         parsed = []
         for ln in lines[:len(cmdmap[cid])]:
@@ -126,6 +133,10 @@ def shard_fn(shard, nshards, seed, tier, exe, ndocs):
         (serr, send, sdump), (derr, dend, ddump) = parsed[0], parsed[1]
         if serr == 0:
             sh.violation("C16/strict-accepts/%s" % kind, "strict mode accepted %s at %s: %r" % (kind, ctx, vt[:100]), rep)
+        if chunked:
+            sh.count("strict_parses_fed_in_chunks")
+            if parsed[-1][0] == 0:
+                sh.violation("C16/strict-accepts-when-chunked/%s" % kind, "strict mode accepted %s at %s when the text was fed in chunks (%s): %r" % (kind, ctx, cmdmap[cid][-1].split()[3], vt[:100]), rep)
         if derr != 0:
             sh.violation("C16/default-rejects/%s" % kind, "default mode rejected %s at %s with error %d: %r" % (kind, ctx, derr, vt[:100]), rep)
         else:
@@ -158,11 +169,15 @@ def shard_fn(shard, nshards, seed, tier, exe, ndocs):
 def run(tier, seed):
     bdir = build.build("asan")
     chk = core.Check(PID, tier, seed)
+    rd = core.record_dir(PID) if tier == "thorough" else None
     sh = core.parallel(shard_fn, seed=seed, tier=tier, exe=bdir + "/jcdrv", ndocs=4000 if tier == "quick" else 20000)
     chk.absorb(sh)
+    if rd:
+        os.environ.pop("VF_RECORD_DIR", None)
+        core.memcheck_recorded(chk, build.build("plain"), rd)
     chk.rule = ("metamorphic: each generated valid document is tokenised and ONE extension is injected at each admissible position (comment in every inter-token gap; single quotes on every "
                 "string/name; trailing comma in every non-empty container; every literal in non-lowercase spellings; each raw control byte in every string/name; leading zero(s) on every number; "
-                "digit-less exponent on every exponent-free number; trailing non-whitespace). Strict must fail, default must succeed with the original value (value-neutral kinds), "
+                "digit-less exponent on every exponent-free number; trailing non-whitespace incl. VT, FF and a random byte). Strict must fail (also when the text is fed in 1-7 byte chunks, half of the variants), default must succeed with the original value (value-neutral kinds), "
                 "STRICT|ALLOW_TRAILING_CHARS must succeed and report where the value ended. distinct = distinct variant texts")
     chk.assumptions = ["for digit-less exponents on integers default mode is only required to succeed (the value changes kind int->double by design)"]
     return chk.finish(min_evaluations=5000)
